@@ -79,8 +79,12 @@ func TestVerifRealSinks(t *testing.T) {
 		if small := os.Getenv("VERIF_SMALLFS"); small != "" {
 			// the output directory lives on a file system of a few MB mounted by the harness; "fillfs" / "freefs" steps
 			// take all of its free space away and give it back (ENOSPC on whatever the recorders do in between)
+			if old, _ := filepath.Glob(filepath.Join(small, "s*")); len(old) > 0 {
+				for _, o := range old { // the file system is tiny: nothing of the earlier scripts may stay on it
+					os.RemoveAll(o)
+				}
+			}
 			base = filepath.Join(small, fmt.Sprintf("s%d", si))
-			os.RemoveAll(base)
 			os.MkdirAll(base, 0755)
 		}
 		dir := filepath.Join(base, "out")
